@@ -718,7 +718,7 @@ pub proof fn lemma_listed_wf(s: Raw)
             && r->Ok_0.votes@[i].proposal_id == proposal_id && Ballot::de(pg[i].1) is Some
             && r->Ok_0.votes@[i].vote == Ballot::de(pg[i].1)->Some_0.vote && r->Ok_0.votes@[i].weight == Ballot::de(pg[i].1)->Some_0.weight
     })
-@eta "addr.as_ref().map" 1
+@eta ".as_ref().map" 1
     __c: &Addr -> Bound<&Addr>
 @closure_types 1
     item: StdResult<(Addr, Ballot)>
